@@ -214,6 +214,44 @@ def multOf (b : Body) (a : Attr) : M := (infer b).mult a
 
 def isList (b : Body) (a : Attr) : Bool := (multOf b a).isMany
 
+/-! ## The rule level: `visit_textx_rule`
+
+The body visitors reduce one-element sequences and choices to their element, so the
+root of a rule body may be any expression.  `visit_textx_rule` wraps the root into a
+one-element `Sequence` when it is a lone assignment, or when the rule has rule
+modifiers (`[skipws]`, `[noskipws]`, `[ws=…]`, `[split=…]`) and the root is not a
+`Sequence` (Arpeggio's `OrderedChoice` is a subclass of `Sequence`): only those apply
+`ws` / `skipws` while parsing.  The multiplicity walk then starts from that root. -/
+
+/-- a grammar rule: does it carry rule modifiers, and its body as the body visitors
+return it -/
+structure Rule where
+  params : Bool
+  body : Body
+deriving Repr
+
+/-- `root_rule.rule_name.startswith("__asgn")` -/
+def Body.isAsgn : Body → Bool
+  | .asgn _ _ => true
+  | _ => false
+
+/-- `isinstance(root_rule, Sequence)` for a root that is not an assignment node -/
+def Body.isSeq : Body → Bool
+  | .seq _ | .choice _ => true
+  | _ => false
+
+/-- the root parsing expression of the rule (`cls._tx_peg_rule`) -/
+def Rule.root (r : Rule) : Body :=
+  if r.body.isAsgn || (r.params && !r.body.isSeq) then .seq [r.body] else r.body
+
+/-- the seeded variant "a root sequence of a single element is the wrapper of a lone
+assignment, there is nothing to promote" (not the code): the walk is skipped for it -/
+def inferSkipSingle (b : Body) : St :=
+  let v := visit (asgns b)
+  match b with
+  | .seq [_] => { seen := [], mult := v.mult, rej := v.rej }
+  | _ => walk .one b { seen := [], mult := v.mult, rej := v.rej }
+
 /-! ### the walk before the repair (`oc_branch_set = set()` per alternative, never merged) -/
 
 mutual
